@@ -185,6 +185,16 @@ def run(ck, F):
         ck.check(R3b, contracts.short(cls), not others, f'besides {[contracts.short(q) for q in qs]}, object(s) of class {contracts.short(cls)} with static storage: '
                  f'{others}', loc=(S.global_by_q(qs[0]) or {}).get('loc'))
 
+    # the constants exist before anything can ask for them
+    R3c = ck.rule('C13.constant-initialised', 'every namespace-scope object of the library (the constants, the tables, and what they are built '
+                  'from: logograms, conventions, transfers) is constant-initialised: none is initialised by code that runs during program '
+                  'start-up, where a constant built earlier would already refer to it while it is still all zeroes (no vptr, no spelling)', floor=10)
+    for g in sorted(F.globals, key=lambda g: g['q']):
+        if g.get('storage') != 'namespace' or g.get('unit') == 'probe.cxx' or not g['loc'].startswith(('src/', 'include/ipr')) or 'init' not in g:
+            continue
+        ck.check(R3c, contracts.short(g['q']), bool(g.get('constant_init')), f'{g["q"]} ({g["t"]}) is initialised dynamically: the constants that refer to it '
+                 '(they are constant-initialised) can be used before it has been constructed', loc=g['loc'])
+
     # ---------------------------------------------------------------- process-wide
     R4 = ck.rule('C13.process-wide', 'no constant accessor reads the Lexicon object: each returns the same namespace-scope '
                  'constexpr object in every Lexicon', floor=33)
